@@ -33,7 +33,7 @@ ASSUMPTIONS = ["grid gaps shorter than the roll window (expiry - last trading da
                "chain spans cover the process clock (K3 is reported under C10 only)"]
 REQUIRED = ["C11:lead-resolution", "C11:never-past-last-trading", "C11:monotone", "C11:others-flat", "C11:not-held-at-expiry",
             "C11:roll-closes-old-lead", "C11:new-lead-at-own-quotes"]
-REQUIRED_CATS = ["rolled-while-holding-below-threshold", "another-chain-environment-later-in-time", "market-data-keyed-by-chain", "resolution:explicit-unsorted-list", "roll-inside-latency-window", "rolling:ES", "rolling:NK", "rolling:VX", "rolling:ZN", "rolled-while-holding"]
+REQUIRED_CATS = ["second-episode-on-same-chain", "rolled-while-holding-below-threshold", "another-chain-environment-later-in-time", "market-data-keyed-by-chain", "resolution:explicit-unsorted-list", "roll-inside-latency-window", "rolling:ES", "rolling:NK", "rolling:VX", "rolling:ZN", "rolled-while-holding"]
 REQUIRED_HITS = ["Broker.transact", "Broker.rebalance"]
 TECHNIQUE = "runtime monitoring: complete enumeration of roll instants against a linear-scan reference; holdings invariants after every step of rolling episodes"
 LEVEL_TEXT = ("Roll instants of every built-in class are enumerated completely per decade (exact instant and +-1us) against an "
@@ -189,73 +189,82 @@ def case(ctx, i, tier):
     cursor = [0]
     rolls_holding = 0
     prev_lead = None
-    with ep.EpMonitor(sink) as mon:
-        env.reset()
-        done = ep.done_at_reset(env, sink)
-        k = 0
-        while not done:
-            if k > len(grid) + 2:
-                raise RuntimeError("step cap")
-            w = rng.choice([0.0, rng.uniform(-1.5, 1.5), rng.uniform(-1.5, 1.5)]) if not intraday else rng.choice([-1, 1]) * rng.uniform(0.3, 1.5)
-            if thr > 0 and not intraday and rng.random() < 0.35:
-                # a position SMALLER than the trading threshold is carried (possibly into a roll: the old lead must be
-                # closed however small it is)
-                w = rng.choice([-1, 1]) * thr * rng.uniform(1.05, 1.6) if env.broker.holdings_quantity.get(prev_lead, 0.0) == 0 else w * 0 + rng.choice([-1, 1]) * thr * rng.uniform(0.2, 0.8)
-            a = np.array([w] + ([rng.uniform(-0.3, 0.5)] if etf is not None else []))
-            if other is not None and not other_done and rng.random() < 0.7:
-                other_done = other.step(np.array([rng.uniform(-1, 1)]))[2]
-            h_before = env.broker.holdings_quantity
-            o, r, done, info = env.step(a)
-            k += 1
-            rb = info["_rebalancing"]
-            # quotes as delivered before this decision
-            dec_quotes = None
-            while cursor[0] < len(sink.log):
-                x = sink.log[cursor[0]]
-                cursor[0] += 1
-                if x[0] == "M" and isinstance(x[5], EventNBBO):
-                    key = x[5].contract
-                    if key is ch:
-                        key = sorted([c for c in ch.contracts if pydt(c.last_trading_date) > x[2]],
-                                     key=lambda c: pydt(c.last_trading_date))[month]
-                    quotes[key] = (x[5].bid_price, x[5].ask_price)
-                elif x[0] == "X":
-                    ctx.check("C11:not-held-at-expiry", env.broker.holdings_quantity.get(x[5].contract, 0.0) == 0.0 and
-                              h_before.get(x[5].contract, 0.0) * 0 == 0 and _held_at(h_before, rb, x[5].contract) == 0.0,
-                              contract=x[5].contract.symbol, at=x[2])
-                    quotes.pop(x[5].contract, None)
-                elif x[0] == "REB":
-                    dec_quotes = dict(quotes)
-            cand = sorted([c for c in ch.contracts if pydt(c.last_trading_date) > rb.time], key=lambda c: pydt(c.last_trading_date))
-            lead = cand[month]
-            h = env.broker.holdings_quantity
-            now = env.now()
-            for c in ch.contracts:
-                q = h.get(c, 0.0)
-                if c is not lead:
-                    ctx.check("C11:others-flat", q == 0.0, contract=c.symbol, qty=q, lead=lead.symbol, decision=rb.time)
-                if q != 0:
-                    ctx.check("C11:not-held-at-expiry", pydt(c.expiry) > now, contract=c.symbol, qty=q, now=now, expiry=c.expiry)
-            if prev_lead is not None and lead is not prev_lead:
-                held = h_before.get(prev_lead, 0.0)
-                ctx.cat("roll")
-                if held != 0:
-                    rolls_holding += 1
-                    ctx.cat("rolled-while-holding")
-                    wpre = rb.context_pre.weights.get(prev_lead, 0.0)
-                    if thr > 0 and abs(wpre) < thr:
-                        ctx.cat("rolled-while-holding-below-threshold")
-                    t_old = [t for t in rb.trades if t.contract is prev_lead or t.contract == prev_lead]
-                    ctx.check("C11:roll-closes-old-lead", len(t_old) == 1 and t_old[0].quantity == -held,
-                              old=prev_lead.symbol, held=held, trades=[(t.contract.symbol, t.quantity) for t in rb.trades])
-                t_new = [t for t in rb.trades if t.contract == lead]
-                if t_new and dec_quotes is not None:
-                    ctx.check("C11:new-lead-at-own-quotes", (t_new[0].bid_price, t_new[0].ask_price) == dec_quotes.get(lead),
-                              lead=lead.symbol, trade=[t_new[0].bid_price, t_new[0].ask_price], quotes=dec_quotes.get(lead))
-                if w != 0 and abs(w) >= thr and dec_quotes is not None:
-                    ctx.check("C11:target-re-established-in-new-lead", len(t_new) == 1 and h.get(lead, 0.0) != 0.0,
-                              lead=lead.symbol, w=w, trades=[(t.contract.symbol, t.quantity) for t in rb.trades])
-            prev_lead = lead
+    n_episodes = 2 if (not intraday and rng.random() < 0.4) else 1
+    if n_episodes == 2:
+        # a second episode on the same environment: the clock goes BACK to the start of the data, the chain
+        # object (and whatever it remembers) is the same
+        ctx.cat("second-episode-on-same-chain")
+    for episode_nr in range(n_episodes):
+        quotes.clear()
+        cursor[0] = len(sink.log)
+        prev_lead = None
+        with ep.EpMonitor(sink) as mon:
+            env.reset()
+            done = ep.done_at_reset(env, sink)
+            k = 0
+            while not done:
+                if k > len(grid) + 2:
+                    raise RuntimeError("step cap")
+                w = rng.choice([0.0, rng.uniform(-1.5, 1.5), rng.uniform(-1.5, 1.5)]) if not intraday else rng.choice([-1, 1]) * rng.uniform(0.3, 1.5)
+                if thr > 0 and not intraday and rng.random() < 0.35:
+                    # a position SMALLER than the trading threshold is carried (possibly into a roll: the old lead must be
+                    # closed however small it is)
+                    w = rng.choice([-1, 1]) * thr * rng.uniform(1.05, 1.6) if env.broker.holdings_quantity.get(prev_lead, 0.0) == 0 else w * 0 + rng.choice([-1, 1]) * thr * rng.uniform(0.2, 0.8)
+                a = np.array([w] + ([rng.uniform(-0.3, 0.5)] if etf is not None else []))
+                if other is not None and not other_done and rng.random() < 0.7:
+                    other_done = other.step(np.array([rng.uniform(-1, 1)]))[2]
+                h_before = env.broker.holdings_quantity
+                o, r, done, info = env.step(a)
+                k += 1
+                rb = info["_rebalancing"]
+                # quotes as delivered before this decision
+                dec_quotes = None
+                while cursor[0] < len(sink.log):
+                    x = sink.log[cursor[0]]
+                    cursor[0] += 1
+                    if x[0] == "M" and isinstance(x[5], EventNBBO):
+                        key = x[5].contract
+                        if key is ch:
+                            key = sorted([c for c in ch.contracts if pydt(c.last_trading_date) > x[2]],
+                                         key=lambda c: pydt(c.last_trading_date))[month]
+                        quotes[key] = (x[5].bid_price, x[5].ask_price)
+                    elif x[0] == "X":
+                        ctx.check("C11:not-held-at-expiry", env.broker.holdings_quantity.get(x[5].contract, 0.0) == 0.0 and
+                                  h_before.get(x[5].contract, 0.0) * 0 == 0 and _held_at(h_before, rb, x[5].contract) == 0.0,
+                                  contract=x[5].contract.symbol, at=x[2])
+                        quotes.pop(x[5].contract, None)
+                    elif x[0] == "REB":
+                        dec_quotes = dict(quotes)
+                cand = sorted([c for c in ch.contracts if pydt(c.last_trading_date) > rb.time], key=lambda c: pydt(c.last_trading_date))
+                lead = cand[month]
+                h = env.broker.holdings_quantity
+                now = env.now()
+                for c in ch.contracts:
+                    q = h.get(c, 0.0)
+                    if c is not lead:
+                        ctx.check("C11:others-flat", q == 0.0, contract=c.symbol, qty=q, lead=lead.symbol, decision=rb.time)
+                    if q != 0:
+                        ctx.check("C11:not-held-at-expiry", pydt(c.expiry) > now, contract=c.symbol, qty=q, now=now, expiry=c.expiry)
+                if prev_lead is not None and lead is not prev_lead:
+                    held = h_before.get(prev_lead, 0.0)
+                    ctx.cat("roll")
+                    if held != 0:
+                        rolls_holding += 1
+                        ctx.cat("rolled-while-holding")
+                        wpre = rb.context_pre.weights.get(prev_lead, 0.0)
+                        if thr > 0 and abs(wpre) < thr:
+                            ctx.cat("rolled-while-holding-below-threshold")
+                        t_old = [t for t in rb.trades if t.contract is prev_lead or t.contract == prev_lead]
+                        ctx.check("C11:roll-closes-old-lead", len(t_old) == 1 and t_old[0].quantity == -held,
+                                  old=prev_lead.symbol, held=held, trades=[(t.contract.symbol, t.quantity) for t in rb.trades])
+                    t_new = [t for t in rb.trades if t.contract == lead]
+                    if t_new and dec_quotes is not None:
+                        ctx.check("C11:new-lead-at-own-quotes", (t_new[0].bid_price, t_new[0].ask_price) == dec_quotes.get(lead),
+                                  lead=lead.symbol, trade=[t_new[0].bid_price, t_new[0].ask_price], quotes=dec_quotes.get(lead))
+                    if w != 0 and abs(w) >= thr and dec_quotes is not None:
+                        ctx.check("C11:target-re-established-in-new-lead", len(t_new) == 1 and h.get(lead, 0.0) != 0.0,
+                                  lead=lead.symbol, w=w, trades=[(t.contract.symbol, t.quantity) for t in rb.trades])
+                prev_lead = lead
     AbstractContract.now = datetime.min
     ctx.cat("rolling:" + cls.__name__, "offset:%d" % month, "step-days:%d" % stepd)
     ctx.nontrivial = rolls_holding > 0
